@@ -22,7 +22,7 @@ def _env():
 
 def dump_mir(repo, workdir):
     """MIR of the library as compiled from the current working tree of `repo` (regenerated on every run)."""
-    tdir = os.path.join(CACHE, "mir" if os.path.realpath(repo) == "/repo" else "mir_alt")
+    tdir = os.path.join(CACHE, "mir" if os.path.realpath(repo) == "/repo" else "mir_alt" + os.environ.get("VERIF_ALT_TAG", ""))
     os.makedirs(tdir, exist_ok=True)
     # force rustc to run again even if cargo considers the crate fresh
     for d in glob.glob(os.path.join(tdir, "debug", ".fingerprint", "rpm-*")):
@@ -51,7 +51,7 @@ def build_native(workdir, repo="/repo"):
         shutil.copytree(os.path.join(VERIF, "native"), src)
         ct = open(os.path.join(src, "Cargo.toml")).read().replace('path = "/repo"', 'path = "%s"' % repo)
         open(os.path.join(src, "Cargo.toml"), "w").write(ct)
-        tdir = os.path.join(CACHE, "native_alt")
+        tdir = os.path.join(CACHE, "native_alt" + os.environ.get("VERIF_ALT_TAG", ""))
     env["CARGO_TARGET_DIR"] = tdir
     try:
         shutil.copy(os.path.join(repo, "Cargo.lock"), os.path.join(src, "Cargo.lock"))
@@ -62,7 +62,7 @@ def build_native(workdir, repo="/repo"):
     binp = os.path.join(tdir, "debug", "rpm-native-replay")
     if p.returncode != 0 or not os.path.exists(binp):
         return None, p.stdout.decode(errors="replace")[-3000:]
-    if tdir.endswith("native_alt"):
+    if "native_alt" in os.path.basename(tdir):
         # keep a private copy: another run may rebuild the shared alt target dir
         priv = os.path.join(workdir, "rpm-native-replay")
         shutil.copy(binp, priv)
